@@ -451,7 +451,7 @@ func c20Build() {
 	c20Add("parse.DataURI", 2, func(r *rand.Rand, op *c20Op) {
 		op.Data = gen.Hostile(r, c16Corpus, c16DataDict, 200)
 		if r.Intn(2) == 0 {
-			op.Data = append([]byte("data:"+gen.Pick(r, []string{"", "text/plain", "text/html;charset=utf-8", ";base64", "image/png;base64"})+","), gen.Pick(r, []string{"a%20b+c", "dGV4dA==", "aGVsbG8gd29ybGQ=", "%", "%zz", "é"})...)
+			op.Data = append([]byte("data:"+gen.Pick(r, []string{"", "text/plain", "text/html;charset=utf-8", ";base64", "image/png;base64", ";charset=utf-8", ";charset=utf-8;base64", ";a=b", ";x=1;y=2"})+","), gen.Pick(r, []string{"a%20b+c", "dGV4dA==", "aGVsbG8gd29ybGQ=", "%", "%zz", "é"})...)
 		}
 	}, func(op *c20Op, d *c20Dig) {
 		b := c20Priv(op.Data, 4)
